@@ -26,6 +26,9 @@ RULE = ('default sets {plain, renamed 1->1, one deprecated name split into '
         'deleted without changing a decision; the tool completes.  case = '
         'one (default set, file, tool); non-trivial = file with >=2 entries '
         'or a deprecated name.')
+RULE += (
+         ' Value kind aliasprefix: an override under a deprecated name that'
+         " mentions a rule whose name merely starts with the successor's.")
 ASSUMPTIONS = ['default configuration (enforce_new_defaults on); no scope '
                'types; value menu instead of arbitrary rules']
 
@@ -76,7 +79,8 @@ def default_set(P, kind):
 
 KINDS = ('plain', 'renamed', 'split', 'changed', 'mix')
 VALUE_KINDS = ('default', 'variant', 'different', 'dquote', 'allow', 'deny',
-               'empty', 'list1', 'list2', 'list0', 'alias', 'casevariant')
+               'empty', 'list1', 'list2', 'list0', 'alias', 'casevariant',
+               'aliasprefix')
 TEXT_KINDS = ('default', 'variant', 'different', 'allow', 'deny', 'empty',
               'casevariant')
 
@@ -115,6 +119,11 @@ def value(vk, name, defaults, successors):
         return []
     if vk == 'alias':
         return 'rule:%s' % successors[name][0] if name in successors else None
+    if vk == 'aliasprefix':
+        # NOT the alias: it mentions a rule whose name merely starts with the
+        # successor's (undefined here, so the value is just role:d)
+        return 'role:d or rule:%sly' % successors[name][0] \
+            if name in successors else None
     raise ValueError(vk)
 
 
